@@ -38,6 +38,17 @@ def runScat (op : String) (ps : List Int) (ts : List (Option (T α))) : Res α :
       let y ← (List.range x.l4.length).mapM fun n =>
         scatJ1Backward m (sym ≠ 0) (prepFilt h0.l1) (prepFilt h1.l1) (some (prepFilt h2.l1)) (x.l4.getD n []) (dz.l4.getD n [])
       some [some (ofL4 y)]
+  | "ScatJ2_bwd", [0], [some h0o, some h1o, some h0a, some h0b, some h1a, some h1b, some b, some x, some dz] => resOfOpt do
+      let m := magOps (b.data.headD Scalar.zero)
+      let f : Scat2Filters α := ⟨prepFilt h0o.l1, prepFilt h1o.l1, none, prepFilt h0a.l1, prepFilt h0b.l1, prepFilt h1a.l1, prepFilt h1b.l1, none⟩
+      let y ← (List.range x.l4.length).mapM fun n => scatJ2Backward m f (x.l4.getD n []) (dz.l4.getD n [])
+      some [some (ofL4 y)]
+  | "ScatJ2_bwd", [1], [some h0o, some h1o, some h2o, some h0a, some h0b, some h1a, some h1b, some h2a, some h2b, some b, some x, some dz] => resOfOpt do
+      let m := magOps (b.data.headD Scalar.zero)
+      let f : Scat2Filters α := ⟨prepFilt h0o.l1, prepFilt h1o.l1, some (prepFilt h2o.l1), prepFilt h0a.l1, prepFilt h0b.l1,
+        prepFilt h1a.l1, prepFilt h1b.l1, some (prepFilt h2a.l1, prepFilt h2b.l1)⟩
+      let y ← (List.range x.l4.length).mapM fun n => scatJ2Backward m f (x.l4.getD n []) (dz.l4.getD n [])
+      some [some (ofL4 y)]
   | _, _, _ => .bad
 
 end WV
